@@ -800,3 +800,94 @@ impl Session {
         }
     }
 }
+
+#[cfg(feature = "verif")]
+impl Session {
+    /// Register a peer record without spawning a connection task (verification harness only).
+    pub fn verif_add_peer(&mut self, addr: String, id: Option<[u8; PEER_ID_SIZE]>) {
+        let job = tokio::spawn(async {});
+        let peer = Peer::new(id, self.metainfo.pieces_num(), job);
+        self.peers.insert(addr, peer);
+    }
+
+    /// Register a peer record owning the given connection task.
+    pub fn verif_add_peer_with_job(
+        &mut self,
+        addr: String,
+        id: Option<[u8; PEER_ID_SIZE]>,
+        job: JoinHandle<()>,
+    ) {
+        let peer = Peer::new(id, self.metainfo.pieces_num(), job);
+        self.peers.insert(addr, peer);
+    }
+
+    /// Handle one command exactly as the event loop does.
+    pub async fn verif_handle_peer_cmd(&mut self, cmd: PeerCmd) -> Result<bool, Error> {
+        self.handle_peer_cmd(cmd).await
+    }
+
+    /// The private `kill_peer`.
+    pub async fn verif_kill_peer(&mut self, addr: &String) {
+        self.kill_peer(addr).await
+    }
+
+    /// Next command sent by a connection task, if any.
+    pub async fn verif_recv_peer_cmd(&mut self) -> Option<PeerCmd> {
+        self.general_channels.rx.recv().await
+    }
+
+    /// Sender half of the command channel, for connection tasks created by the harness.
+    pub fn verif_peer_tx(&self) -> mpsc::Sender<PeerCmd> {
+        self.general_channels.tx.clone()
+    }
+
+    /// New subscription to the broadcast channel.
+    pub fn verif_subscribe(&self) -> broadcast::Receiver<BroadCmd> {
+        self.general_channels.broad.subscribe()
+    }
+
+    /// Piece status vector.
+    pub fn verif_statuses(&mut self) -> &mut Vec<Status> {
+        &mut self.pieces_status
+    }
+
+    /// Peer records.
+    pub fn verif_peers(&mut self) -> &mut HashMap<String, Peer> {
+        &mut self.peers
+    }
+
+    /// The private `choose_piece_index`.
+    pub async fn verif_choose(&mut self, addr: &String) -> Option<usize> {
+        self.choose_piece_index(addr).await
+    }
+
+    /// The private `unchoked_num`.
+    pub fn verif_unchoked_num(&self) -> usize {
+        self.unchoked_num()
+    }
+
+    /// The private `change_conn_state`; returns the broadcast `am_choked_map`.
+    pub fn verif_rotate(
+        &mut self,
+        rates: &mut Vec<(String, u32)>,
+        new_optimistic: &Vec<String>,
+    ) -> Result<HashMap<String, bool>, String> {
+        match self.change_conn_state(rates, new_optimistic) {
+            Ok(BroadCmd::SendOwnState { am_choked_map }) => Ok(am_choked_map),
+            Ok(_) => Err("unexpected command".to_string()),
+            Err(e) => Err(e.to_string()),
+        }
+    }
+
+    /// The private `timeout_change_conn_state` (one rotation tick).
+    pub async fn verif_rotation_tick(&mut self) -> Result<(), String> {
+        self.timeout_change_conn_state()
+            .await
+            .map_err(|e| e.to_string())
+    }
+
+    /// Current rotation round.
+    pub fn verif_round(&mut self) -> &mut usize {
+        &mut self.round
+    }
+}
